@@ -1,6 +1,6 @@
 (* C15 — obligations re-checked on every run against the table regenerated from the Go source
    (copied next to Access_gen.v by the `gen` command of meta/C15.json). *)
-From SG Require Import Base.Prelude Model.Lockset Model.RuleSwitch Model.LocksetPolicy Proofs.LocksetProofs.
+From SG Require Import Base.Prelude Model.Lockset Model.RuleSwitch Model.LocksetRegions Model.LocksetPolicy Proofs.LocksetProofs.
 From Gen Require Import Access_gen.
 
 (* printed first so that a failing run names the offending accesses: (func, var, line) pairs *)
@@ -8,7 +8,10 @@ Definition VIOLATING_ACCESSES := Eval vm_compute in map brief (violations access
 Print VIOLATING_ACCESSES.
 Definition SINGLE_READ_VIOLATIONS := Eval vm_compute in single_read_violations getter_calls expected_reads premise_exempt.
 Print SINGLE_READ_VIOLATIONS.
-Definition TABLE_SIZE := Eval vm_compute in (length accesses, length (filter (live whitelist) accesses), length getter_calls, length lock_order).
+Definition LOCK_REGION_VIOLATIONS := Eval vm_compute in map region_brief (region_violations lock_regions region_policy).
+Print LOCK_REGION_VIOLATIONS.
+Definition TABLE_SIZE := Eval vm_compute in (length accesses, length (filter (live whitelist) accesses), length getter_calls, length lock_order,
+  (length lock_regions, length (filter (fun r => negb (lr_deferred r)) lock_regions), length (filter lr_recovered lock_regions))).
 Print TABLE_SIZE.
 
 (* every access of the listed packages is protected: any two accesses to one variable of
@@ -30,6 +33,17 @@ Proof. vm_compute. reflexivity. Qed.
 (* no lock is acquired (transitively) while already held: the rule managers cannot deadlock
    among themselves *)
 Theorem C15_lock_order : lock_order_ok lock_order = true.
+Proof. vm_compute. reflexivity. Qed.
+
+(* unlock discipline: no lock is held across a possibly-panicking call in code whose panic is
+   recovered unless a deferred Unlock releases it, and no function returns holding a lock it
+   acquired - a failed rule load (panicking generator) cannot leave a rule lock locked *)
+Theorem C15_unlock_discipline : regions_ok lock_regions region_policy = true.
+Proof. vm_compute. reflexivity. Qed.
+
+(* the table is not trivially empty: the rule loaders do call generators under a (deferred) lock *)
+Theorem C15_unlock_discipline_nonvacuous :
+  existsb (fun r => lr_deferred r && lr_recovered r && match lr_class r with CDyn => true | _ => false end) lock_regions = true.
 Proof. vm_compute. reflexivity. Qed.
 
 Print Assumptions C15_race_free.
